@@ -26,4 +26,14 @@ PROPS = {
         "assumptions": ["Go int is 64-bit two's complement"],
         "explanation": "closed-form theorems for the ranger iterators (with the minint side conditions that are the known finding F13), partition theorem for groupBy, len theorem; differential runs against helpers/iterators, plush.GroupByHelper and helpers/meta",
     },
+    "C20": {
+        "level": "proof",
+        "cone": ["model/Bytes.v", "model/Text.v", "proofs/TextProofs.v", "props/C20.v"],
+        "trusted_base": COMMON_TB + [
+            "model/Text.v re-implements unicode/utf8 decoding, helpers/text/truncate.go, text/template.HTMLEscapeString and JSEscapeString, and encoding/json's encoder for null/bool/int/string/array/object; these standard-library functions are modelled, not verified (tied by differential runs)",
+            "unicode.IsPrint is an oracle (section variable is_print); the harness supplies its value for the runes of each case",
+        ],
+        "assumptions": ["strings with invalid UTF-8 are outside 'JSON-representable values' for the round trip"],
+        "explanation": "theorems about truncate and the HTML escaper on the Coq model + differential runs of truncate/htmlEscape/jsEscape/toJSON against the real helpers, with property oracles in Go (rune bound, prefix, no raw specials, json.Valid + decode round trip)",
+    },
 }
